@@ -24,6 +24,7 @@ from comb_spec_searcher import (
     DisjointUnionStrategy,
     StrategyPack,
 )
+from comb_spec_searcher.exception import InvalidOperationError
 from comb_spec_searcher.strategies.strategy import StrategyFactory, SymmetryStrategy, VerificationStrategy
 
 
@@ -480,29 +481,79 @@ class StatAtom(_NoArgs, VerificationStrategy):
         return d
 
 
-class FiniteLang(_NoArgs, VerificationStrategy):
-    """Verifies finite (non-atom, non-empty) languages and offers a pack to expand them."""
+class FiniteLang(VerificationStrategy):
+    """Verifies finite (non-atom, non-empty) languages of states >= min_state.  The pack it offers for a class contains
+    FiniteLang(state + 1): verification nests.  With packless_even it declines to offer a pack for classes of even states
+    and counts / generates those by its own means (brute force through the DFA)."""
 
-    def __init__(self):
+    def __init__(self, min_state=0, packless_even=False):
         VerificationStrategy.__init__(self)
-
-    @classmethod
-    def from_dict(cls, d):
-        return cls()
+        self.min_state = min_state
+        self.packless_even = packless_even
 
     def verified(self, c):
-        return (not c.atom) and (not c.is_empty()) and c.t.finite_from(c.q)
+        return (not c.atom) and (not c.is_empty()) and c.q >= self.min_state and c.t.finite_from(c.q)
 
     def formal_step(self):
         return "finite language"
 
+    def _packless(self, c):
+        return self.packless_even and c.q % 2 == 0
+
     def pack(self, c):
-        return mkpack(("stats:" + c.stats,) if c.stats else ())
+        if self._packless(c):
+            raise InvalidOperationError("no pack offered for this class")
+        opts = (("stats:" + c.stats,) if c.stats else ())
+        return mkpack(opts, finite=FiniteLang(c.q + 1, self.packless_even))
+
+    def get_terms(self, c, n):
+        if self._packless(c):
+            return Counter(c.get_parameters(w) for w in c.objects_of_size(n))
+        return super().get_terms(c, n)
+
+    def get_objects(self, c, n):
+        if self._packless(c):
+            d = defaultdict(list)
+            for w in c.objects_of_size(n):
+                d[c.get_parameters(w)].append(w)
+            return d
+        return super().get_objects(c, n)
+
+    def random_sample_object_of_size(self, c, n, **parameters):
+        if self._packless(c):
+            objs = list(c.objects_of_size(n, **parameters))
+            return objs[0]
+        return super().random_sample_object_of_size(c, n, **parameters)
+
+    def get_genf(self, c, funcs=None):
+        if self._packless(c):
+            x = sympy.var("x")
+            res = sympy.Integer(0)
+            for n in range(len(c.prefix), len(c.prefix) + c.t.S + 1):
+                for w in c.objects_of_size(n):
+                    term = x ** n
+                    for p in c.extra_parameters:
+                        term *= sympy.var(p) ** w.count("a")
+                    res += term
+            return res
+        return super().get_genf(c, funcs)
 
     def to_jsonable(self):
         d = super().to_jsonable()
         d.pop("ignore_parent")
+        d["min_state"] = self.min_state
+        d["packless_even"] = self.packless_even
         return d
+
+    @classmethod
+    def from_dict(cls, d):
+        return cls(d.get("min_state", 0), d.get("packless_even", False))
+
+    def __repr__(self):
+        return "FiniteLang(%d,%r)" % (self.min_state, self.packless_even)
+
+    def __str__(self):
+        return "FiniteLang"
 
 
 class MixFactory(StrategyFactory):
@@ -538,16 +589,20 @@ class MixFactory(StrategyFactory):
         return "MixFactory"
 
 
-OPTION_NAMES = ("iterative", "inferral", "symmetry", "factory", "factory2", "finite", "two")
+OPTION_NAMES = ("iterative", "inferral", "symmetry", "factory", "factory2", "finite", "finite-mixed", "two")
 
 
-def mkpack(opts=()):
-    """opts: subset of OPTION_NAMES plus optionally 'stats:<mode>'"""
+def mkpack(opts=(), finite=None):
+    """opts: subset of OPTION_NAMES plus optionally 'stats:<mode>'; finite: a FiniteLang instance to add"""
     stats = ""
     for o in opts:
         if o.startswith("stats:"):
             stats = o[6:]
-    ver = [StatAtom() if stats else AtomStrategy()] + ([FiniteLang()] if "finite" in opts else [])
+    if finite is None and "finite" in opts:
+        finite = FiniteLang(0, False)
+    if finite is None and "finite-mixed" in opts:
+        finite = FiniteLang(0, True)
+    ver = [StatAtom() if stats else AtomStrategy()] + ([finite] if finite is not None else [])
     inf = [MergeState()] if "inferral" in opts else []
     sym = [SwapLetters()] if ("symmetry" in opts and not stats) else []
     exp = [[MixFactory("factory2" in opts)]] if ("factory" in opts or "factory2" in opts) else [[SplitFirst()]]
